@@ -100,6 +100,12 @@ type plainReader struct{ r io.Reader }
 
 func (p *plainReader) Read(b []byte) (int, error) { return p.r.Read(b) }
 
+// seekOnly offers Read and Seek and nothing else (no ReadAt, no ReadByte).
+type seekOnly struct{ r io.ReadSeeker }
+
+func (p *seekOnly) Read(b []byte) (int, error)                { return p.r.Read(b) }
+func (p *seekOnly) Seek(off int64, whence int) (int64, error) { return p.r.Seek(off, whence) }
+
 // readerAtOnly hides Read/Seek.
 type readerAtOnly struct{ r io.ReaderAt }
 
@@ -274,7 +280,7 @@ func runIdxCase(x *acCtx, c *acCase) {
 						}
 					}
 				}
-				sources := []string{"bytes.Reader", "os.File", "plain io.Reader", "bufio.Reader", "bytes.Buffer", "fromFile"}
+				sources := []string{"bytes.Reader", "os.File", "plain io.Reader", "bufio.Reader", "bytes.Buffer", "ReadSeeker-only", "fromFile"}
 				for _, src := range sources {
 					var idx index.Index
 					var err error
@@ -289,6 +295,8 @@ func runIdxCase(x *acCtx, c *acCase) {
 							return bufio.NewReaderSize(&plainReader{bytes.NewReader(file)}, 16), func() {}
 						case "bytes.Buffer":
 							return bytes.NewBuffer(append([]byte{}, file...)), func() {}
+						case "ReadSeeker-only":
+							return &seekOnly{bytes.NewReader(file)}, func() {}
 						default:
 							return &plainReader{bytes.NewReader(file)}, func() {}
 						}
@@ -338,25 +346,31 @@ func runIdxCase(x *acCtx, c *acCase) {
 		if c.A.Npad > 0 {
 			opts = append(opts, carv2.ZeroLengthSectionAsEOF(true))
 		}
-		idx, err := carv2.ReadOrGenerateIndex(bytes.NewReader(file), opts...)
-		x.rep.eval(canon(c.A)+fmt.Sprintf("rog/%v", ident), len(c.Scan) > 1)
-		if err != nil {
-			x.viol("index/read-or-generate-error", c, fmt.Sprintf("ReadOrGenerateIndex(ident=%v) failed: %v", ident, err), map[string]any{"mode": "idx"})
-		} else {
-			col, effIdent := "mh", ident
-			if c.A.Ver == 2 && c.A.Idx != "none" {
-				effIdent = c.A.Full
-				if c.A.Idx == "sorted" {
-					col = "dig"
-				}
+		for _, rsKind := range []string{"bytes.Reader", "ReadSeeker-only"} {
+			var rs io.ReadSeeker = bytes.NewReader(file)
+			if rsKind == "ReadSeeker-only" { // positional reads go through the library's own adapter
+				rs = &seekOnly{bytes.NewReader(file)}
 			}
-			if effIdent {
-				col += "_id"
+			idx, err := carv2.ReadOrGenerateIndex(rs, opts...)
+			x.rep.eval(canon(c.A)+fmt.Sprintf("rog/%v/%s", ident, rsKind), len(c.Scan) > 1)
+			if err != nil {
+				x.viol("index/read-or-generate-error", c, fmt.Sprintf("ReadOrGenerateIndex(%s, ident=%v) failed: %v", rsKind, ident, err), map[string]any{"mode": "idx"})
 			} else {
-				col += "_noid"
-			}
-			if m := checkIndexAnswers(c, idx, col, payload); m != "" {
-				x.viol("index/read-or-generate-answers", c, fmt.Sprintf("ReadOrGenerateIndex(ident=%v): %s", ident, m), map[string]any{"mode": "idx"})
+				col, effIdent := "mh", ident
+				if c.A.Ver == 2 && c.A.Idx != "none" {
+					effIdent = c.A.Full
+					if c.A.Idx == "sorted" {
+						col = "dig"
+					}
+				}
+				if effIdent {
+					col += "_id"
+				} else {
+					col += "_noid"
+				}
+				if m := checkIndexAnswers(c, idx, col, payload); m != "" {
+					x.viol("index/read-or-generate-answers", c, fmt.Sprintf("ReadOrGenerateIndex(%s, ident=%v): %s", rsKind, ident, m), map[string]any{"mode": "idx"})
+				}
 			}
 		}
 	}
@@ -497,7 +511,7 @@ func runRoCase(x *acCtx, c *acCase) {
 				} else if c.A.Ver == 2 && c.A.Idx != "none" {
 					ixIdent = c.A.Full
 				}
-				fronts := []string{"blockstore.NewReadOnly", "blockstore.OpenReadOnly", "storage.OpenReadable"}
+				fronts := []string{"blockstore.NewReadOnly", "blockstore.OpenReadOnly", "storage.OpenReadable", "storage.OpenReadable(ReaderAt-only)"}
 				for _, fr := range fronts {
 					if sup != "none" && fr != "blockstore.NewReadOnly" {
 						continue
@@ -516,6 +530,12 @@ func runRoCase(x *acCtx, c *acCase) {
 						b, err = blockstore.OpenReadOnly(path, opts...)
 						if err == nil {
 							f = &roBS{b}
+						}
+					case "storage.OpenReadable(ReaderAt-only)": // sequential reads go through the library's own adapter
+						var s storage.ReadableCar
+						s, err = storage.OpenReadable(&readerAtOnly{bytes.NewReader(file)}, opts...)
+						if err == nil {
+							f = &roSC{s}
 						}
 					default:
 						var s storage.ReadableCar
